@@ -125,3 +125,7 @@ func CanonKey(w *world.World, ctx sdk.Context, skipStores ...string) [32]byte {
 	copy(r[:], h.Sum(nil))
 	return r
 }
+
+type bigIntT = big.Int
+
+var bigOne = big.NewInt(1)
